@@ -2,6 +2,8 @@
 """Regenerate the seeded-change table of DESIGN.md section 10 from /verif/seeded/*/meta.json."""
 import json, glob, os, re
 NOTES = {
+ "C11b-clocks-restart-in-reactivate": "missed at first by C11 (no conditional aux in the clock families; C07 caught it); clocks+conditional-aux family added to C11",
+
  "C05b-resuspend-skips-main": "missed at first by the quick tier (two conditional auxes on one frame were thorough-only); a same-frame two-aux subset is now in quick C05/C10/C07",
  "C10b-resuspend-skips-main": "same change as C05b, seeded independently; see there",
  "C12b-raze-first-ignores-razeable": "missed at first: no frame held a static insular clone next to reared ones; static+reared family added",
